@@ -490,6 +490,35 @@ func cmdCheck(args []string) {
 		fmt.Printf("  failed obligation: %s [%s] %s at %s\n  clause: %s\n  model: %s\n", ob.Name, ob.Result, ob.Solver, ob.Pos, ob.Clause, ob.Unit.modelSummary(ob))
 		exit = 1
 	}
+	for _, dc := range e.dispatch {
+		tagged := len(dc.Tags) == 0
+		for _, t := range dc.Tags {
+			if t == *prop {
+				tagged = true
+			}
+		}
+		if !tagged {
+			continue
+		}
+		name := fmt.Sprintf("%s.%s#dispatch:%s", pkgShort(dc.Pkg), dc.Type, dc.Method)
+		okd, why := dc.holds(e.L)
+		total++
+		res := "unsat"
+		if okd {
+			discharged++
+		} else {
+			res = "sat"
+		}
+		reports = append(reports, obReport{Name: name, Kind: "dispatch", Unit: pkgShort(dc.Pkg) + "." + dc.Type, Result: res, Solver: "go/types", Clause: fmt.Sprintf("%s.%s is the method promoted from the embedded %s", dc.Type, dc.Method, dc.From)})
+		if !okd {
+			violations++
+			path := filepath.Join(replayRoot(), *prop, sanitize(name)+".json")
+			os.MkdirAll(filepath.Dir(path), 0o755)
+			os.WriteFile(path, []byte(fmt.Sprintf("{\"property\":%q,\"obligation\":%q,\"decided_by\":\"go/types\",\"reason\":%q}\n", *prop, name, why)), 0o644)
+			fmt.Printf("VIOLATION property=%s replay=%s no-failing-input-found\n  failed obligation: %s [go/types]\n  reason: %s\n", *prop, path, name, why)
+			exit = 1
+		}
+	}
 	for _, ob := range undecided {
 		fmt.Printf("UNDECIDED obligation=%s result=%s (not in baseline; not counted as discharged)\n", ob.Name, ob.Result)
 	}
